@@ -1849,6 +1849,12 @@ class CouponPayingSecurity(FixedIncomeSecurity):
         except KeyError:
             self._cost_short = None
 
+        # like the coupons, holding costs are read by position: refuse a
+        # table that is not on the dates of the universe
+        for cost in (self._cost_long, self._cost_short):
+            if cost is not None and not cost.index.equals(universe.index):
+                raise ValueError("Index of holding costs must match universe data")
+
         self.data["coupon"] = 0.0
         self.data["holding_cost"] = 0.0
         self._coupon_income = self.data["coupon"]
